@@ -15,7 +15,7 @@ for ln in open(tr):
 d = "/tmp/driftdbg"
 shutil.rmtree(d, ignore_errors=True); shutil.copytree(vlib.SPEC, d)
 open(d + "/HtpKnown.tla", "w").write(vlib.known_module_text())
-open(d + "/T.cfg", "w").write("CONSTANTS MaxTx = 100000  MaxCalls = 100000000  MaxAvail = 2  AutoDestroy = %s  FixD4 = TRUE  TraceMode = TRUE\n CbFail = {}\n Known <- KnownSet\n"
+open(d + "/T.cfg", "w").write("CONSTANTS MaxTx = 100000  MaxCalls = 100000000  MaxAvail = 2  AutoDestroy = %s  FixD4 = TRUE  TraceMode = TRUE  Gaps = FALSE\n CbFail = {}\n Known <- KnownSet\n"
                               "SPECIFICATION TSpec\nINVARIANT NotAccepted\nCONSTRAINT Progress\nPOSTCONDITION Report\nCHECK_DEADLOCK FALSE\n" % ("TRUE" if autod else "FALSE"))
 def tlc(lines):
     open(d + "/t.ndjson", "w").writelines(lines)
